@@ -1,6 +1,7 @@
 //! implrun: runs the implementation built from /repo's working tree on cases written by the
 //! driver. One case per input line (a JSON nested array of non-negative integers, the same text
 //! the extracted Coq model reads); one result per output line in the same format.
+mod c07;
 mod c08;
 mod c11;
 mod c16;
@@ -37,6 +38,7 @@ fn run_case(v: &Value) -> Value {
     let op = a[1].as_u64().unwrap_or(0);
     let args = &a[2..];
     match p {
+        7 => c07::run(op, args),
         8 => c08::run(op, args),
         11 => c11::run(op, args),
         16 => c16::run(op, args),
